@@ -28,12 +28,13 @@ type targetPanic struct {
 
 // pathAbort ends the current symbolic path (not a Go panic of the target).
 type pathAbort struct {
-	kind string // infeasible | unmodelled | unwind | budget | engine | stop
-	msg  string
+	kind     string // infeasible | unmodelled | unwind | budget | engine | stop
+	msg      string
+	hasStack bool
 }
 
 func abort(kind, format string, args ...interface{}) {
-	panic(pathAbort{kind, fmt.Sprintf(format, args...)})
+	panic(pathAbort{kind: kind, msg: fmt.Sprintf(format, args...)})
 }
 
 type deferred struct {
@@ -479,13 +480,17 @@ func runFrame(fr *frame) {
 		r := recover()
 		switch r := r.(type) {
 		case pathAbort:
+			if !r.hasStack && r.kind != "infeasible" && r.kind != "stop" {
+				r.msg += "\n" + fr.stack()
+				r.hasStack = true
+			}
 			panic(r)
 		case targetPanic:
 		case runtime.Error:
 			// a bug in the engine (or an unexpected value shape): not a target panic
-			panic(pathAbort{"engine", fmt.Sprintf("engine error in %s: %v\n%s\n%s", fr.fn, r, fr.stack(), debug.Stack())})
+			panic(pathAbort{kind: "engine", msg: fmt.Sprintf("engine error in %s: %v\n%s\n%s", fr.fn, r, fr.stack(), debug.Stack()), hasStack: true})
 		default:
-			panic(pathAbort{"engine", fmt.Sprintf("engine panic in %s: %v\n%s\n%s", fr.fn, r, fr.stack(), debug.Stack())})
+			panic(pathAbort{kind: "engine", msg: fmt.Sprintf("engine panic in %s: %v\n%s\n%s", fr.fn, r, fr.stack(), debug.Stack()), hasStack: true})
 		}
 		fr.panicking = true
 		fr.panic = r
